@@ -4,9 +4,11 @@ import (
 	"context"
 	"encoding/json"
 	"fmt"
+	"os"
 	"sort"
 	"strings"
 
+	"github.com/anishathalye/porcupine"
 	"github.com/herohde/morlock/pkg/board"
 	"github.com/herohde/morlock/pkg/eval"
 	"github.com/herohde/morlock/pkg/search"
@@ -153,6 +155,44 @@ func linearizable(calls []ttCall, t *seqTable, done []bool, left int) bool {
 	return false
 }
 
+// porcupineState is the sequential table as a comparable value (at most 4 slots are used).
+type porcupineState [4]seqEntry
+
+var porcupineChecked int64
+
+// porcupineLinearizable decides the same question with the porcupine checker (v1.3.0): an
+// independent implementation, used to cross-check the brute-force search above.
+func porcupineLinearizable(calls []ttCall, mask uint64) bool {
+	model := porcupine.Model{
+		Init: func() interface{} { return porcupineState{} },
+		Step: func(state, input, output interface{}) (bool, interface{}) {
+			st := state.(porcupineState)
+			c := output.(ttCall)
+			t := &seqTable{slots: map[uint64]*seqEntry{}, mask: mask}
+			for i := range st {
+				if st[i].tag != 0 {
+					e := st[i]
+					t.slots[uint64(i)] = &e
+				}
+			}
+			if !t.apply(c) {
+				return false, state
+			}
+			var next porcupineState
+			for k, e := range t.slots {
+				next[k] = *e
+			}
+			return true, next
+		},
+	}
+	var ops []porcupine.Operation
+	for _, c := range calls {
+		ops = append(ops, porcupine.Operation{ClientId: c.Thread, Input: c.Op, Call: int64(c.Inv), Output: c, Return: int64(c.Ret)})
+	}
+	porcupineChecked++
+	return porcupine.CheckOperations(model, ops)
+}
+
 func buildTT(params json.RawMessage) explore.Scenario {
 	var p ttParams
 	if err := json.Unmarshal(params, &p); err != nil {
@@ -228,7 +268,12 @@ func buildTT(params json.RawMessage) explore.Scenario {
 				}
 			}
 			// (2) linearizable with respect to the sequential table (incl. the replacement rule)
-			if !linearizable(all, &seqTable{slots: map[uint64]*seqEntry{}, mask: nslots - 1}, make([]bool, len(all)), len(all)) {
+			lin := linearizable(all, &seqTable{slots: map[uint64]*seqEntry{}, mask: nslots - 1}, make([]bool, len(all)), len(all))
+			if nslots <= 4 && porcupineLinearizable(all, nslots-1) != lin {
+				fmt.Fprintln(os.Stderr, "HARNESS-ERROR: the brute-force linearizability search and porcupine disagree on: "+hist)
+				os.Exit(2)
+			}
+			if !lin {
 				o.Violation, o.Msg = "C17/not-linearizable", "no sequential order of the calls explains their results: "+hist
 				return o
 			}
@@ -265,7 +310,7 @@ func init() {
 	u := ttOp{Op: "U"}
 	Defs["C17"] = &Def{
 		ID:   "C17",
-		Rule: "harness threads issue Write(tagged payload)/Read/Used on keys forced to collide (same hash; different hash same slot; 1-, 2- and 4-slot tables; equal/greater/smaller replacement value), with the non-atomic `used++` split into load and store by the rewriter. ALL interleavings of every harness (no bound); thorough adds 3x2-, crossing- and 4-thread harnesses explored to deviation bound 7. Oracle per complete interleaving: each hit returns one single store's tuple for that hash; the call/return history is linearizable w.r.t. the sequential table incl. the replacement rule (brute force over <= 6 calls); fill fraction within [0,1] whenever read and, at quiescence, equal to the number of occupied slots. distinct_nontrivial = distinct call/return histories among executions in which two threads touched a common object",
+		Rule: "harness threads issue Write(tagged payload)/Read/Used on keys forced to collide (same hash; different hash same slot; 1-, 2- and 4-slot tables; equal/greater/smaller replacement value), with the non-atomic `used++` split into load and store by the rewriter. ALL interleavings of every harness (no bound); thorough adds 3x2-, crossing- and 4-thread harnesses explored to deviation bound 7. Oracle per complete interleaving: each hit returns one single store's tuple for that hash; the call/return history is linearizable w.r.t. the sequential table incl. the replacement rule (brute force over <= 6 calls, every verdict cross-checked against porcupine v1.3.0); fill fraction within [0,1] whenever read and, at quiescence, equal to the number of occupied slots. distinct_nontrivial = distinct call/return histories among executions in which two threads touched a common object",
 		Gen: func(tier string) []explore.Scenario {
 			ps := []ttParams{
 				{32, [][]ttOp{{w(7, 1, 1, 1)}, {w(9, 1, 2, 2)}}},                                // two writers, one slot, second more valuable
